@@ -185,6 +185,19 @@ pub(crate) fn sampled(rng: &mut Rng) -> Scenario {
         4 => {
             sc.faults.push(FaultSpec { trigger: Trigger::AfterTime(lerp(sc.x0, sc.xend, rng.f())), kind: FaultKind::NanAll, comp: 0, mag: 1.0 });
         }
+        5 => {
+            // a transient non-finite fault: the solver may recover (retry the step) - and must then
+            // still be honest about how far it got. Biased to the crossings of the last step,
+            // where a retry meets the closing-step logic.
+            let (lo, hi) = match pilot(&sc) {
+                Some(p) if p.cb_ode_calls.len() >= 2 && rng.bool(0.7) => (p.cb_ode_calls[p.cb_ode_calls.len() - 2] + 1, p.n_ode.max(p.cb_ode_calls[p.cb_ode_calls.len() - 2] + 1)),
+                Some(p) => (1, p.n_ode.max(1)),
+                None => (1, 300),
+            };
+            let n = rng.int(lo as usize, hi as usize) as u64;
+            let trigger = if rng.bool(0.7) { Trigger::At(n) } else { Trigger::Burst(n, rng.int(2, 4) as u64) };
+            sc.faults.push(FaultSpec { trigger, kind: *rng.pick(&[FaultKind::NanAll, FaultKind::NanOne, FaultKind::PosInf, FaultKind::NegInf]), comp: 0, mag: 1.0 });
+        }
         _ => {}
     }
     sc
